@@ -1,7 +1,10 @@
 package main
 
 import (
+	"fmt"
+	"reflect"
 	"regexp/syntax"
+	"sort"
 	"unicode/utf8"
 )
 
@@ -44,6 +47,9 @@ var corpus = []string{
 	`^/api/.*\.json$`, `^GET .* HTTP$`, `^begin.*end$`, `^<.*>$`, `^\[.*\]$`,
 	// word boundaries on the lazy-DFA strategies (most \b patterns are routed to the NFA)
 	`\berror\b.*`, `x\b.y`, `a.{0,5}b\b`, `[^,]*,\b`, `\d+\b`, `[ab]*a[ab]{15}\b`, `(?i)\bwarn\w*:.*`, `.*\bfoo\b`, `\d{2}:\d{2}\b`,
+	// start-anchored patterns with '.': UseBoundedBacktracker plus the ASCII automaton and the
+	// engine-level ASCII backtracker (the *stateless* BoundedBacktracker entry points)
+	`^/.*\.html`, `^\w+: .*\d`, `^GET /.* HTTP/1\.[01]`, `^(.*)=(\d+)`, `^.+@.+\..+`, `^\[(.*)\] (\w+)`, `^.{3,10}x`, `^(\w+)=(.*)$`, `^.*x.*y`, `^(?:.*,){2}`, `(\w+)=(.*)`,
 	// state blow-up (many reachable DFA states on inputs over the pattern's own alphabet)
 	`a[ab]{12}[cd]`, `[cd][ab]{10}a[ab]*x`, `ab[ab]{20}c`, `(a|b)*a(a|b){9}`, `[01]*1[01]{11}`,
 }
@@ -137,10 +143,18 @@ func genMatch(r *rng, re *syntax.Regexp, depth int) []byte {
 				hi = lo + 64
 			}
 			c := lo + rune(r.n(int(hi-lo)+1))
+			if genASCII && c >= 0x80 && re.Rune[0] < 0x80 {
+				// the class has ASCII members: take one of the first range
+				c = re.Rune[0]
+			}
 			out = utf8.AppendRune(out, c)
 		}
 	case syntax.OpAnyCharNotNL, syntax.OpAnyChar:
-		out = append(out, pick(r, noiseRunes)...)
+		if genASCII {
+			out = append(out, pick(r, asciiNoise)...)
+		} else {
+			out = append(out, pick(r, noiseRunes)...)
+		}
 	case syntax.OpCapture:
 		out = genMatch(r, re.Sub[0], depth+1)
 	case syntax.OpStar, syntax.OpPlus, syntax.OpQuest, syntax.OpRepeat:
@@ -175,8 +189,44 @@ func genMatch(r *rng, re *syntax.Regexp, depth int) []byte {
 
 var noiseRunes = []string{"a", "b", "x", "z", "q", "0", "7", " ", " ", ".", ",", "-", "_", "@", "/", "\n", "é", "日", "ω", "\xff", "E", "f", "o"}
 
+// genASCII restricts generated haystacks to 7-bit bytes for the scenario being
+// generated (set by the scenario generators from the scenario's own PRNG stream, a
+// third of the scenarios): the library's ASCII-only fast paths (ASCII automata,
+// ASCII backtracker, byte-class searchers) run only when the whole haystack is ASCII,
+// and a mixed alphabet makes such a haystack exponentially unlikely as it grows.
+var genASCII bool
+
+var asciiNoise = []string{"a", "b", "x", "z", "q", "0", "7", " ", " ", ".", ",", "-", "_", "@", "/", "\n", "E", "f", "o"}
+
+func asciiOnlyAlphabet(alpha []string) []string {
+	var out []string
+	for _, a := range alpha {
+		ok := true
+		for i := 0; i < len(a); i++ {
+			if a[i] >= 0x80 {
+				ok = false
+			}
+		}
+		if ok {
+			out = append(out, a)
+		}
+	}
+	if len(out) == 0 {
+		return asciiNoise
+	}
+	return out
+}
+
 // patternAlphabet collects bytes that are interesting for this pattern.
 func patternAlphabet(p string) []string {
+	a := patternAlphabetAll(p)
+	if genASCII {
+		return asciiOnlyAlphabet(a)
+	}
+	return a
+}
+
+func patternAlphabetAll(p string) []string {
 	a := append([]string(nil), noiseRunes...)
 	for _, c := range p {
 		if c < 128 && (c >= '0' && c <= '9' || c >= 'a' && c <= 'z' || c >= 'A' && c <= 'Z' || c == '@' || c == ' ' || c == '/' || c == '-' || c == ':' || c == ',' || c == '"' || c == '=') {
@@ -192,10 +242,14 @@ func patternAlphabet(p string) []string {
 // made of them keeps automata busy (state blow-up, cache pressure) instead of
 // resetting them at every other byte.
 func patternOnlyAlphabet(alpha []string) []string {
-	if len(alpha) <= len(noiseRunes) {
+	n := len(noiseRunes)
+	if genASCII {
+		n = len(asciiNoise)
+	}
+	if len(alpha) <= n {
 		return alpha
 	}
-	return alpha[len(noiseRunes):]
+	return alpha[n:]
 }
 
 func genNoise(r *rng, alpha []string, n int) []byte {
@@ -319,4 +373,63 @@ func genHaystack(r *rng, p string, re *syntax.Regexp, alpha []string, class int)
 	}
 	out = append(out, genNoise(r, alpha, r.n(maxNoise+1))...)
 	return out
+}
+
+// ---- pattern choice balanced over engine configurations -----------------------
+
+// engineSignature describes which machinery Compile built for a pattern: the
+// strategy plus the set of non-nil reference fields of meta.Engine (DFAs, searchers,
+// prefilter, one-pass automaton, ASCII variants ...), read by reflection so that a
+// field added by a change is part of the signature without anyone listing it here.
+func engineSignature(p string) string {
+	re, err := compile(p, Knobs{})
+	if err != nil {
+		return "ERROR"
+	}
+	eng := re.VerifEngine()
+	v := reflect.ValueOf(eng).Elem()
+	t := v.Type()
+	sig := eng.Strategy().String()
+	for i := 0; i < v.NumField(); i++ {
+		f := v.Field(i)
+		switch f.Kind() {
+		case reflect.Ptr, reflect.Interface, reflect.Map, reflect.Slice, reflect.Func:
+			if !f.IsNil() {
+				sig += "+" + t.Field(i).Name
+			}
+		}
+	}
+	if pf := eng.VerifPrefilter(); pf != nil {
+		sig += fmt.Sprintf("+pf:%T", pf)
+	}
+	return sig
+}
+
+var corpusGroups [][]string
+
+// pickPattern draws a corpus pattern: half of the time uniformly, half of the time
+// by first drawing an engine configuration (signature) uniformly and then a pattern
+// that compiles to it - so machinery that only a handful of the ~350 patterns get
+// (an ASCII backtracker, a Fat Teddy prefilter, a reverse-inner searcher with a
+// one-pass automaton ...) is exercised as often as the common configurations.
+func pickPattern(r *rng) string {
+	if corpusGroups == nil {
+		m := map[string][]string{}
+		for _, p := range corpus {
+			s := engineSignature(p)
+			m[s] = append(m[s], p)
+		}
+		keys := make([]string, 0, len(m))
+		for k := range m {
+			keys = append(keys, k)
+		}
+		sort.Strings(keys)
+		for _, k := range keys {
+			corpusGroups = append(corpusGroups, m[k])
+		}
+	}
+	if r.p(1, 2) {
+		return pick(r, corpus)
+	}
+	return pick(r, pick(r, corpusGroups))
 }
